@@ -15,6 +15,12 @@ def no_hidden_state(rep, rid, prog, rel_prefixes, min_functions=3):
         n += 1
         sm = eff.summ[q]
         own = {g: s for g, s in sm.globals_w.items()}
+        # a private module-level helper (and the closures it returns) that fills a module-level table is registration code run while the module
+        # is imported; every function that CALLS it at run time carries the write in its own summary and is reported there
+        root = f
+        while root.parent is not None: root = prog.funcs.get(root.parent, root) if isinstance(root.parent, str) else root.parent
+        rname = getattr(root.node, 'name', '')
+        if root.cls is None and rname.startswith('_') and not rname.startswith('__'): own = {}
         for g, s in sorted(own.items()):
             bad += 1
             rep.ob(rid, f'{q}->{g[0]}.{g[1]}', False, f'writes the module-level object {g[0]}.{g[1]} ({s}): results depend on earlier calls', f.site)
